@@ -171,7 +171,12 @@ func (r *Run) guardTable(w *World, rule string, fn *ssa.Function, rows []guardRo
 		// (2)
 		edges := predTrueEdges(fn, row.Preds)
 		if len(edges) == 0 {
-			r.bad(rule, cons, w.rel(fn.Pos()), "no branch edge on which all of ["+strings.Join(row.Preds, " && ")+"] hold")
+			// the guard may have been moved into a helper that did not exist on the reference tree
+			if why, ok := r.guardInHelper(w, fn, row, outs); ok {
+				r.ok(rule, cons, w.rel(instrPos(found.Ret)), "guard found in a looked-through helper: "+why)
+			} else {
+				r.bad(rule, cons, w.rel(fn.Pos()), "no branch edge on which all of ["+strings.Join(row.Preds, " && ")+"] hold"+why)
+			}
 			continue
 		}
 		escaped := ""
@@ -253,6 +258,105 @@ func blockReachable(from, to *ssa.BasicBlock) bool {
 }
 
 // predTrueEdges returns the branch edges whose own condition is one of preds and on which all preds hold.
+// guardInHelper looks for a guard row's branch inside helpers called by fn that did not exist on the reference tree:
+// in the helper (with the caller's arguments substituted) the edge on which the predicates hold must lead only to
+// returns of the sentinel, the helper's success returns must exclude the predicates (Global rows), and in fn an error
+// from the helper must always be returned while fn's success returns lie behind the helper's success.
+func (r *Run) guardInHelper(w *World, fn *ssa.Function, row guardRow, outs []retOutcome) (string, bool) {
+	why := ""
+	for _, b := range fn.Blocks {
+		for _, ins := range b.Instrs {
+			ci, ok := ins.(*ssa.Call)
+			if !ok {
+				continue
+			}
+			callee := transparentCallee(ci)
+			if callee == nil || callee == fn {
+				continue
+			}
+			okHelper := false
+			withCallEnv(ci, callee, func() {
+				edges := predTrueEdges(callee, row.Preds)
+				if len(edges) == 0 {
+					return
+				}
+				couts := returnOutcomes(callee)
+				okHelper = true
+				for _, e := range edges {
+					tgt := callee.Blocks[e[0]].Succs[e[1]]
+					for _, o := range couts {
+						if row.Sentinel != "" && len(o.Sentinels) == 1 && o.Sentinels[0] == row.Sentinel || row.Sentinel == "" && !o.isPotentialSuccess() {
+							continue
+						}
+						blk := o.Ret.Block()
+						if o.Pred != nil {
+							blk = o.Pred
+						}
+						if (blk == tgt || blockReachable(tgt, blk)) && !(o.Pred != nil && !containsAll(o.Conds, row.Preds)) {
+							okHelper = false
+							why = fmt.Sprintf("; in helper %s a return with outcome %v is reachable although the predicates hold", short(fnName(callee)), o.Sentinels)
+						}
+					}
+				}
+				if row.Global {
+					for _, o := range couts {
+						if !o.isPotentialSuccess() {
+							continue
+						}
+						excl := false
+						for _, p := range row.Preds {
+							if hasMatch(o.Conds, negPred(p)) {
+								excl = true
+							}
+						}
+						if !excl {
+							okHelper = false
+							why = fmt.Sprintf("; helper %s can succeed without the predicates having been excluded", short(fnName(callee)))
+						}
+					}
+				}
+			})
+			if !okHelper {
+				continue
+			}
+			// in fn: the helper's error is returned, and success is reachable only after the helper succeeded
+			if !failureReturnsError(ci) {
+				why = fmt.Sprintf("; the error of helper %s is not returned by %s", short(fnName(callee)), short(fnName(fn)))
+				continue
+			}
+			okS := true
+			if row.Global {
+				for _, o := range outs {
+					if o.isPotentialSuccess() && !onlyViaSuccess(ci, o.Ret, true) {
+						okS = false
+						why = fmt.Sprintf("; %s can succeed without helper %s having succeeded", short(fnName(fn)), short(fnName(callee)))
+					}
+				}
+			}
+			if okS {
+				return short(fnName(callee)), true
+			}
+		}
+	}
+	return why, false
+}
+
+// failureReturnsError: on every edge where ci's error result is known to be non-nil only error returns are reachable.
+func failureReturnsError(ci ssa.CallInstruction) bool {
+	fn := ci.Parent()
+	succRet := map[*ssa.Return]bool{}
+	for _, o := range returnOutcomes(fn) {
+		if o.isPotentialSuccess() {
+			succRet[o.Ret] = true
+		}
+	}
+	okk, tested := failEdgeAvoids(ci, func(i ssa.Instruction) bool {
+		ret, ok := i.(*ssa.Return)
+		return ok && succRet[ret]
+	})
+	return okk && tested
+}
+
 func predTrueEdges(fn *ssa.Function, preds []string) []edgeKey {
 	var out []edgeKey
 	for _, b := range fn.Blocks {
